@@ -78,6 +78,35 @@ CHECKS = {
         note="Trusted: exact rational arithmetic; ulp-level boundary agreement between implementations is the trace part (DESIGN 4 C06 d).",
         technique="TLA+ spec (Formak.tla UpdateAccept/UpdateReject + Gate) + TLC; spec->code replay into Python (and C++) filters",
     ),
+    "C02": dict(
+        category="model_checking",
+        text="The same Formak.tla behaviours (definitions with all control x calibration combinations, 0-3 sensors of 1-3 readings, "
+             "elementary functions) are rendered by FormaK's C++ generator with CSE off and on, compiled with g++ and the generated "
+             "model / process_jacobian / control_jacobian / covariance / SensorModel::{model,jacobian,covariance} compared entry by entry, "
+             "by name, with the spec's exact values; a generated file that does not compile is itself a violation.",
+        design_ref="DESIGN.md section 4 C02",
+        note="Trusted: Eigen stand-in (no Eigen in the sandbox), g++ 12 -std=c++20, name<->index maps probed from the generated accessors.",
+        technique="TLA+ spec (Formak.tla) + TLC simulation; spec->code replay into generated, compiled C++",
+    ),
+    "C07": dict(
+        category="model_checking",
+        text="One Formak.tla behaviour (SetEstimate / Predict / accepted and rejected Updates / evaluations) is replayed into the Python "
+             "filter and into the generated C++ filter; both are compared with the spec after every step and with each other "
+             "(state, covariance, stored innovation, accept/reject decision), values set and read by field name on both sides.",
+        design_ref="DESIGN.md section 4 C07",
+        note="Trusted: Eigen stand-in, g++ 12; exact rational oracle; 1e-9 relative tolerance.",
+        technique="TLA+ spec (Formak.tla) + TLC simulation; one behaviour replayed into Python and generated C++ (differential + oracle)",
+    ),
+    "C12": dict(
+        category="model_checking",
+        text="For every (control, calibration, #sensors 0-3) combination drawn, FormaK generates the filter for a TLC-drawn definition "
+             "(dt-dependent, non-linear), the driver static_asserts ManagedFilter<...>::compatible, ticks it through tick histories "
+             "produced by ManagedFilter.tla and, in the same program, folds process_model/sensor_model by hand in the call order the "
+             "spec gives; results must be bit-identical. A failed build is the event Instantiate->failed, which the spec never allows.",
+        design_ref="DESIGN.md section 4 C12",
+        note="Trusted: Eigen stand-in, g++ 12; blame analysis separates harness-driver build errors (machinery) from generated-code / runtime-header errors.",
+        technique="TLA+ specs (Formak.tla for filters, ManagedFilter.tla for tick histories) + TLC simulation; replay into compiled C++",
+    ),
 }
 
 NOT_YET = "check not built yet (work in progress; see DESIGN.md section 8 build order)"
